@@ -116,12 +116,31 @@ def symbol_lookup(ck, sim_inl, sim_cut):
             ck.engine(E2, 'Processor::trace + lookupSymbol')
     ck.sample({'obligation': 'symbol lookup', 'symbols': 3, 'offsets': 'symbolic ascending', 'lastPC': 'symbolic'})
 
+def tv_call_sequences(ck):
+    """along compiled programs: the sequence of 'lastPC equals a symbol's offset' events equals the reference interpreter's
+    procedure-entry sequence (skeleton programs in the quick tier, the whole generator set in the thorough tier)"""
+    import tvrun
+    jobs = tvrun.jobs_for(ck, include_shipped=False)
+    if ck.tier == 'quick': jobs = [j for j in jobs if j[0].startswith('skeleton:')]
+    results = tvrun.run_jobs(jobs)
+    n = 0
+    for r in results:
+        if r['status'].startswith('engine-error'): ck.fail_inconclusive(f"{r['name']}: {r['status']}"); continue
+        ck.cov['paths'] += r['bin_paths']; ck.cov['queries'] += r['queries']; ck.cov['solver_s'] += r['solver_s']; ck.cov['ir_steps'] += r['steps']
+        ck.obligation(not any(f[0] == 'calls' for f in r['findings']), max(1, r['bin_paths'])); n += 1
+        for cat, what, vals, _ in r['findings']:
+            if cat == 'calls':
+                key = f"calls:{r['name']}"
+                ck.violation(key, f"{what} [{r['name']}]", ck.replay_file(key, {'source': r['src'], 'finding': what}), True); break
+    ck.sample({'obligation': 'procedure entries in the trace == call sequence of the source', 'programs': n})
+
 def main():
     ck = Check('C15', 'translation_validation')
     L, shapes, results = run_family(ck, 'C15')
     sim_cut = Sim(noinline=True); sim_inl = Sim(noinline=False)
     trace_call_boundary(ck, sim_cut)
     symbol_lookup(ck, sim_inl, sim_cut)
+    tv_call_sequences(ck)
     ck.assume("(L) symbol table written by emitDebugInfo is checked on every C05 shape containing FUNC/PROC: each listed once, ascending, with the byte offset at which the following directive's encoding starts",
               "(S) debug-section reader + lookupSymbol + trace(): <= 3 symbols, names <= 3 characters, offsets and lastPC 32-bit symbolic; boost::format calls are cut: the values fed to operator% are checked, the text rendering is outside",
               "(S) at the call boundary of trace() in the step harness: instr == fetched byte, instrEnum == its high nibble, lastPC == old pc, cycles == instructions executed before; instrEnumToStr against the hexb.pdf mnemonic table",
